@@ -386,3 +386,5 @@ def run(ctx):
     _b.check_updates(ctx, 'C20.RU', 'C20')
     from .. import boundaries as _b
     _b.check_guards(ctx, 'C20.RG', 'C20')
+    from .. import boundaries as _b
+    _b.check_counts(ctx, 'C20.RQ', 'C20')
